@@ -28,6 +28,9 @@ func (w *rrWorld) applyCoarse(op *rrOp, where string) {
 	case "remove":
 	case "next", "serve":
 		pos := w.model.positive()
+		if op.kind == "serve" && w.listener && op.invoked && op.listened != 1 {
+			r.Fail("rewrite-listener", "%s: the request was forwarded and the configured request-rewrite listener was told %d times", where, op.listened)
+		}
 		if op.sticky && !op.err {
 			if w.model.find(op.outKey) < 0 {
 				r.Fail("routed-outside-pool", "%s: request with affinity cookie handed to %s, members %s", where, op.outKey, w.model.encode())
@@ -51,9 +54,6 @@ func (w *rrWorld) applyCoarse(op *rrOp, where string) {
 		}
 		if !contains(pos, op.outKey) {
 			r.Fail("routed-outside-pool", "%s: %s selected %s, positive-weight members are %v (model %s)", where, op.kind, op.outKey, pos, w.model.encode())
-		}
-		if op.kind == "serve" && w.listener && op.invoked && op.listened != 1 {
-			r.Fail("rewrite-listener", "%s: the request was forwarded and the configured request-rewrite listener was told %d times", where, op.listened)
 		}
 		if op.kind == "serve" && op.status != http.StatusOK {
 			r.Fail("client-request-altered", "%s: status %d (-1 = the client's request URL was modified)", where, op.status)
